@@ -10,4 +10,6 @@ cd harness
 RUSTFLAGS="--cfg rustaudio_dasp_verif" CARGO_TARGET_DIR="$PWD/target" cargo build --offline --quiet --bins 2>&1 | grep -v "^warning\|^ *|\|^ *=\|^ *-->\|^$\|^help\|^ *[0-9]* |" | tail -20 || true
 RUSTFLAGS="--cfg rustaudio_dasp_verif" CARGO_TARGET_DIR="$PWD/target" cargo build --offline --quiet --bins --release 2>&1 | grep -v "^warning\|^ *|\|^ *=\|^ *-->\|^$\|^help\|^ *[0-9]* |" | tail -20 || true
 test -x target/debug/c06
+cd ../harness_nostd
+RUSTFLAGS="--cfg rustaudio_dasp_verif" CARGO_TARGET_DIR="$PWD/target" cargo build --offline --quiet --bins 2>&1 | grep -E "^error" -A8 | tail -20 || true
 echo "setup ok"
